@@ -660,6 +660,32 @@ func (g *Gen) boolExpr1(d int) *Node {
 		}
 		return Op(name, x.Clone(), x.Clone(), g.Leaf(TBool))
 	}
+	// look-alike siblings: two operands of one and/or that differ only in the
+	// type of a leaf — (= env dev) next to (= env "dev"), (= n 3) next to
+	// (= n "3") — are different operands, whatever they print as
+	if g.K.PIll > 0 && r.P(0.04) && d >= 2 {
+		var x *Node
+		switch r.Intn(3) {
+		case 0:
+			x = Op(PickS(r, []string{"=", "==", "eq", "!="}), g.Leaf(TStr), g.Leaf(TStr))
+		case 1:
+			x = Op(PickS(r, []string{"=", "eq", "!=", "ne"}), g.Leaf(TInt), Lit(VI(int64(r.Range(-2, 12)))))
+		default:
+			x = Op("in", g.Leaf(TInt), g.litOf(TIntList))
+		}
+		if tw, ok := lookalike(x, r); ok {
+			name := PickS(r, []string{"and", "&&", "or", "||", "or"})
+			args := []*Node{x, tw, g.Leaf(TBool)}
+			if r.P(0.5) {
+				args = []*Node{g.Leaf(TBool), x, g.Leaf(TBool), tw}
+			}
+			if r.P(0.3) {
+				args[0], args[len(args)-1] = args[len(args)-1], args[0]
+			}
+			g.left -= 10
+			return Op(name, args...)
+		}
+	}
 	// a range check written as two comparisons of one operand under and/or
 	// (what a "between"-style rewrite would key on), bounds often variables
 	if r.P(0.03) && d >= 2 {
